@@ -193,6 +193,8 @@ type GraphDesc struct {
 	Outside  string // "", mapself, sliceself, ifaceptrself, typep : placed in node 0
 	Inside   string // "", pslice, pmap, parr: a self cycle through a pointer to slice/map/array only, in node InsideAt's EI
 	InsideAt int
+	Shape    *ShapeDesc `json:",omitempty"` // shapes.go: pointers to fast-path collections / pointer map keys, in node ShapeAt's EI
+	ShapeAt  int
 }
 
 // ---- builder: Go values and Coq heap from the same description ----
@@ -202,6 +204,7 @@ type built struct {
 	cells []string // Coq terms of heap cells (nodes first)
 	root  interface{}
 	rootT string
+	so    *shapeObjs // objects of d.Shape: they keep their addresses across fills
 }
 
 func coqList(xs []string) string { return "[" + strings.Join(xs, "; ") + "]" }
@@ -578,6 +581,11 @@ func (b *built) fill(d *GraphDesc) {
 		}
 		b.cells[d.InsideAt] = replaceField(b.cells[d.InsideAt], 7, fmt.Sprintf("VIface (VPtr %d)", c1))
 	}
+	if d.Shape != nil {
+		v, t := b.buildShape(d.Shape, alloc)
+		b.nodes[d.ShapeAt].EI = v
+		b.cells[d.ShapeAt] = replaceField(b.cells[d.ShapeAt], 7, t)
+	}
 	// root
 	switch d.RootKind {
 	case "val":
@@ -699,7 +707,7 @@ func hasPtrCycle(v reflect.Value, onpath map[pkey]bool, done map[pkey]bool, ptrO
 			} else {
 				it := v.MapRange()
 				for it.Next() && !r {
-					r = hasPtrCycle(it.Value(), onpath, done, ptrOnly)
+					r = hasPtrCycle(it.Key(), onpath, done, ptrOnly) || hasPtrCycle(it.Value(), onpath, done, ptrOnly)
 				}
 			}
 			return r
@@ -956,6 +964,9 @@ func reachable(d *GraphDesc) (seen []bool, cyc bool) {
 	if d.Inside != "" && seen[d.InsideAt] {
 		cyc = true
 	}
+	if d.Shape != nil && seen[d.ShapeAt] && d.Shape.cyclic() {
+		cyc = true
+	}
 	for i := range d.Nodes {
 		on, ona := d.Nodes[i].On, d.Nodes[i].OnA
 		if seen[i] && (on == "cycle" || on == "self" || ona == "cycle" || ona == "self") {
@@ -993,6 +1004,9 @@ func treeSize(d *GraphDesc) int {
 		state[i] = 1
 		nd := &d.Nodes[i]
 		t := 1
+		if d.Shape != nil && d.ShapeAt == i {
+			t += d.Shape.unfold()
+		}
 		add := func(x int) {
 			t += sz(x)
 			if t > capN {
@@ -1087,6 +1101,7 @@ func repaired(d *GraphDesc) *GraphDesc {
 	}
 	c.Outside = ""
 	c.Inside = ""
+	c.Shape = repairedShape(d.Shape)
 	return &c
 }
 
@@ -1097,6 +1112,7 @@ type childReq struct {
 	Format string
 	Chk    bool
 	Canon  bool
+	Sta    bool // StructToArray
 }
 
 func childMain() {
@@ -1107,7 +1123,7 @@ func childMain() {
 		os.Exit(3)
 	}
 	b := newBuilt(req.Desc)
-	h := vh.NewHandle(req.Format, vh.Opts{"CheckCircularRef": req.Chk, "Canonical": req.Canon})
+	h := vh.NewHandle(req.Format, vh.Opts{"CheckCircularRef": req.Chk, "Canonical": req.Canon, "StructToArray": req.Sta})
 	var out []byte
 	err := codec.NewEncoderBytes(&out, h).Encode(b.root)
 	fmt.Printf("RESULT %d\n", errCode(err))
@@ -1159,6 +1175,8 @@ type caseCfg struct {
 	raw   bool
 	canon bool
 	child bool // first Encode runs in a child process only
+	guard bool // cyclic with the option: the first Encode runs in a child process first; in-process only when that child returned
+	sta   int  // StructToArray: 0 = by case id, 1 = off, 2 = on
 }
 
 func descJSON(d *GraphDesc) interface{} {
@@ -1271,7 +1289,16 @@ func runCase(id int, c caseCfg, cv *vh.Cases, sum *vh.Summary, stream string) {
 	}
 	b := newBuilt(d)
 	heap1, root1 := b.heapTerm(), b.rootT
-	cj := map[string]interface{}{"desc": descJSON(d), "chk": c.chk, "raw": c.raw, "canonical": c.canon, "seed_index": id, "stream": stream, "struct_to_array": id%3 == 1, "optimum_size": id%5 == 2, "nil_to_zero_len": id%7 == 3, "recursive_empty_check": id%2 == 0}
+	sta := id%3 == 1
+	if c.sta != 0 {
+		sta = c.sta == 2
+	}
+	shapeClass, shapeFam := "", "" // family = kind:carrier (pc:fv, pk:M, pc:random): the root-cause class of a shape failure
+	if d.Shape != nil {
+		shapeClass = d.Shape.Class
+		shapeFam = strings.Join(strings.SplitN(shapeClass, ":", 3)[:2], ":")
+	}
+	cj := map[string]interface{}{"desc": descJSON(d), "chk": c.chk, "raw": c.raw, "canonical": c.canon, "seed_index": id, "stream": stream, "struct_to_array": sta, "shape_class": shapeClass, "optimum_size": id%5 == 2, "nil_to_zero_len": id%7 == 3, "recursive_empty_check": id%2 == 0}
 
 	// independent facts about the graph
 	leafKinds := map[int]bool{}
@@ -1298,7 +1325,7 @@ func runCase(id int, c caseCfg, cv *vh.Cases, sum *vh.Summary, stream string) {
 			fmts = vh.Formats
 		}
 		for _, f := range fmts {
-			code, hw := runChild(childReq{d, f, c.chk, c.canon}, 1500*time.Millisecond)
+			code, hw := runChild(childReq{d, f, c.chk, c.canon, sta}, 1500*time.Millisecond)
 			codes[code] = true
 			how = hw
 			if first == -2 {
@@ -1338,11 +1365,38 @@ func runCase(id int, c caseCfg, cv *vh.Cases, sum *vh.Summary, stream string) {
 	}
 	loose := (cyc && len(leafKinds) > 0) || len(leafKinds) > 1
 
+	if c.guard && c.chk && cyc {
+		// must be rejected with an error; a fatal stack overflow cannot be recovered in-process: try it in a child first
+		fmts := []string{vh.Formats[id%len(vh.Formats)]}
+		if os.Getenv("VERIF_TIER") == "thorough" {
+			fmts = vh.Formats
+		}
+		for _, f := range fmts {
+			code, hw := runChild(childReq{d, f, c.chk, c.canon, sta}, 30*time.Second)
+			if code != 99 && code != -1 {
+				continue // returned: the in-process run below applies the oracle to every format
+			}
+			cj["format"], cj["child"] = f, hw
+			switch {
+			case code == -1:
+				sum.FailC(stream, "child:"+shapeFam, "child process failed in an unexpected way", cj)
+			case hw == "hang":
+				sum.FailC(stream, "cycle-hang:"+shapeFam, "cyclic graph with CheckCircularRef: Encode did not return (child process) instead of giving the circular-reference error", cj)
+			default:
+				sum.FailC(stream, "cycle-stack-overflow:"+shapeFam, "cyclic graph with CheckCircularRef: Encode exhausted the stack (fatal, child process) instead of giving the circular-reference error", cj)
+			}
+			cv.Add(fmt.Sprintf("mkcase %d %s %s %s %d false [OpEncode %s (%s)] [%d]%%N", id, heap1, vh.CoqBool(c.chk), vh.CoqBool(c.raw), budget, heap1, root1, code))
+			sum.Count(stream+".guard."+hw, fmt.Sprintf("%s/%s/guard-%s/%s", stream, shapeClass, hw, d.RootKind))
+			sum.ModelCases++
+			return
+		}
+	}
+
 	d2 := repaired(d)
 	var res [3]int
 	for fi, f := range vh.Formats {
 		b.fill(d)
-		h := vh.NewHandle(f, vh.Opts{"CheckCircularRef": c.chk, "Raw": c.raw, "Canonical": c.canon, "StructToArray": id%3 == 1, "OptimumSize": id%5 == 2, "NilCollectionToZeroLength": id%7 == 3, "RecursiveEmptyCheck": id%2 == 0})
+		h := vh.NewHandle(f, vh.Opts{"CheckCircularRef": c.chk, "Raw": c.raw, "Canonical": c.canon, "StructToArray": sta, "OptimumSize": id%5 == 2, "NilCollectionToZeroLength": id%7 == 3, "RecursiveEmptyCheck": id%2 == 0})
 		var out []byte
 		enc := codec.NewEncoderBytes(&out, h)
 		// the same sequence over an io.Writer: what a failed Encode left in the buffer must not survive Reset
@@ -1352,6 +1406,7 @@ func runCase(id int, c caseCfg, cv *vh.Cases, sum *vh.Summary, stream string) {
 		var r [3]int
 		err1 := safeEncode(enc, b.root)
 		r[0] = errCode(err1)
+		first := append([]byte(nil), out...)
 		err2 := safeEncode(enc, b.root)
 		r[1] = errCode(err2)
 		cj["format"] = f
@@ -1378,6 +1433,16 @@ func runCase(id int, c caseCfg, cv *vh.Cases, sum *vh.Summary, stream string) {
 		}
 		if r[0] == 0 && r[1] != 0 {
 			sum.FailC(stream, "second-encode", "second Encode of the same acyclic value failed (stack not balanced?)", cj)
+		}
+		// on an acyclic graph the option must not change a byte (map order pinned by Canonical, or no map at all)
+		if noMaps := d.Shape != nil && len(d.Shape.Self) > 0 && len(d.Nodes) == 1; !cyc && r[0] == 0 && (c.canon || noMaps) {
+			h2 := vh.NewHandle(f, vh.Opts{"CheckCircularRef": !c.chk, "Raw": c.raw, "Canonical": c.canon, "StructToArray": sta, "OptimumSize": id%5 == 2, "NilCollectionToZeroLength": id%7 == 3, "RecursiveEmptyCheck": id%2 == 0})
+			var o2 []byte
+			if err := safeEncode(codec.NewEncoderBytes(&o2, h2), b.root); err != nil || !bytes.Equal(first, o2) {
+				cj["other_err"] = fmt.Sprint(err)
+				sum.FailC(stream, "chk-bytes:"+shapeFam, "acyclic graph: the output with CheckCircularRef differs from the output without it", cj)
+				delete(cj, "other_err")
+			}
 		}
 		// repair the graph in place (same node objects => same pointers as the stale stack entries), Reset, Encode
 		b.fill(d2)
@@ -1421,7 +1486,7 @@ func runCase(id int, c caseCfg, cv *vh.Cases, sum *vh.Summary, stream string) {
 	heap2, root2 := b.heapTerm(), b.rootT
 	cv.Add(fmt.Sprintf("mkcase %d %s %s %s %d %s [OpEncode %s (%s); OpEncode %s (%s); OpReset; OpEncode %s (%s)] [%d;%d;%d]%%N",
 		id, heap1, vh.CoqBool(c.chk), vh.CoqBool(c.raw), budget, vh.CoqBool(loose), heap1, root1, heap1, root1, heap2, root2, res[0], res[1], res[2]))
-	key := fmt.Sprintf("%s/cyc%v/chk%v/leaf%s%v/%s/n%d/r%d", stream, cyc, c.chk, hasLeaf, loose, d.RootKind, len(d.Nodes), res[0])
+	key := fmt.Sprintf("%s/cyc%v/chk%v/leaf%s%v/%s/n%d/r%d/%s", stream, cyc, c.chk, hasLeaf, loose, d.RootKind, len(d.Nodes), res[0], shapeClass)
 	if len(d.Nodes) == 0 {
 		key = ""
 	}
@@ -1453,6 +1518,8 @@ func main() {
 	worker := flag.Bool("worker", false, "worker mode (internal): run the cases; the supervisor restarts it when a case kills it")
 	skip := flag.String("skip", "", "worker: case ids to skip (they killed an earlier worker)")
 	prefail := flag.String("prefail", "", "worker: file with failures recorded by the supervisor")
+	nShape := flag.Int("shapes", 120, "random graphs carrying a random shape (pointer to fast-path collection / pointer map keys)")
+	noShapes := flag.Bool("noshapes", false, "skip the shape streams")
 	flag.Parse()
 	if *child {
 		childMain()
@@ -1470,7 +1537,7 @@ func main() {
 		}
 	}
 	r := vh.NewRng(vh.SeedFromEnv())
-	sum := vh.NewSummary("graph: random adjacency over node type N (*N, **N, []*N, map[string]*N, interface{} holding ptr/pp/slice/map/[]interface{}/map[string]interface{}, embedded struct, *[]*N, *map[string]*N, [2]*N, *Book whose Ref points at its embedded first field, *[2]Cell whose element 1 points at element 0: same address, other type; *ON / *ONA: non-simple structs with an omitempty field coded by kStruct as map, as array under StructToArray, and as array by the toarray tag) x {dag, arbitrary} x CheckCircularRef x root kind x 5 formats, ops Encode/Encode/repair+Reset/Encode; leaves: every unrepresentable kind (and its representable twin) at a random node, optionally behind a pointer; child: cyclic without the option and cycles through map/slice/*interface{}/type P *P only, in a child process; distinct by (stream, cyclic, option, leaf, root kind, nodes, outcome)")
+	sum := vh.NewSummary("graph: random adjacency over node type N (*N, **N, []*N, map[string]*N, interface{} holding ptr/pp/slice/map/[]interface{}/map[string]interface{}, embedded struct, *[]*N, *map[string]*N, [2]*N, *Book whose Ref points at its embedded first field, *[2]Cell whose element 1 points at element 0: same address, other type; *ON / *ONA: non-simple structs with an omitempty field coded by kStruct as map, as array under StructToArray, and as array by the toarray tag) x {dag, arbitrary} x CheckCircularRef x root kind x 5 formats, ops Encode/Encode/repair+Reset/Encode; leaves: every unrepresentable kind (and its representable twin) at a random node, optionally behind a pointer; child: cyclic without the option and cycles through map/slice/*interface{}/type P *P only, in a child process; ptrcoll (deterministic, seed independent): pointers to fast-path collections (*[]interface{}, *map[string]interface{}, harmless *[]string) as fields of simple / omitempty / toarray structs held by value, by pointer, as slice / map / array / MapBySlice elements, behind a double pointer and directly in an interface x target kind x {self cycle, two-collection cycle, DAG with sharing} x root by pointer / by value x StructToArray; ptrkey (deterministic): pointer map keys map[*K]int, map[*K]*K (key / value), map[interface{}]int, map[[1]*K]int x {self, back through a field, two keys, DAG with sharing} x Canonical on / off x root by pointer / by value; shapes: random shapes of both kinds on random graphs; a cyclic shape case runs its first Encode in a child process first (a fatal stack overflow is a counterexample); distinct by (stream, cyclic, option, leaf, root kind, nodes, outcome, shape class)")
 	cv := vh.NewCases(*cases, "From Coq Require Import List NArith.\nFrom Verif Require Import Base.Outcome C20.Model C20.Corr.\nImport ListNotations.", "case", "mismatches", 40)
 	if *prefail != "" {
 		if bs, err := os.ReadFile(*prefail); err == nil {
@@ -1569,6 +1636,46 @@ func main() {
 			runCase(id, caseCfg{desc: d, chk: true, canon: false, child: true}, cv, sum, "child")
 		}
 		id++
+	}
+	// shapes (shapes.go): deterministic, seed-independent streams first, then random shapes on random graphs
+	shapeBase := func(k int) *GraphDesc {
+		d := &GraphDesc{Nodes: make([]NodeDesc, 1)}
+		nd := &d.Nodes[0]
+		nd.P, nd.PP, nd.EP, nd.A = -1, -1, -1, [2]int{-1, -1}
+		nd.BookUp, nd.BookNext, nd.RowUp, nd.OnUp, nd.OnAUp = -1, -1, -1, -1, -1
+		nd.I, nd.EI = IVal{Kind: "nil"}, IVal{Kind: "nil"}
+		d.RootKind, d.Roots = []string{"ptr", "val", "iface", "slice"}[k%4], []int{0}
+		return d
+	}
+	if !*noShapes {
+		for i, sc := range append(append(detPCShapes(), detPKShapes()...), detSFShapes()...) {
+			d := shapeBase(i)
+			attachShape(d, sc.s, 0)
+			st := 1
+			if sc.sta {
+				st = 2
+			}
+			runCase(id, caseCfg{desc: d, chk: sc.chk, canon: sc.canon, guard: true, sta: st}, cv, sum, sc.stream)
+			id++
+		}
+		sr := r.Fork()
+		for i := 0; i < *nShape; i++ {
+			dag := sr.Intn(5) < 2
+			var d *GraphDesc
+			for {
+				d = randGraph(sr, genMode{dag: dag, density: sr.PickInt(1, 2, 3)}, "", false)
+				attachShape(d, randShape(sr, dag || sr.Bool()), sr.Intn(len(d.Nodes)))
+				if okSize(d) {
+					break
+				}
+			}
+			chk := true
+			if _, cyc := reachable(d); !cyc && sr.Chance(1, 3) {
+				chk = false
+			}
+			runCase(id, caseCfg{desc: d, chk: chk, raw: sr.Bool(), canon: sr.Bool(), guard: true}, cv, sum, "shapes")
+			id++
+		}
 	}
 	cv.Close()
 	sum.Print()
